@@ -7,7 +7,10 @@
 (* and "e2" (an instance of a subclass, created by NewSub, with its own    *)
 (* integer range [-1, 1] and its own function 'f').  Each environment may  *)
 (* have a function f: ValueType -> LogicalType registered, with a constant *)
-(* body ("ct" always true, "cf" always false).                             *)
+(* body ("ct" always true, "cf" always false); the subclass starts with an *)
+(* 'f' of ANOTHER signature, ValueType -> ValueType ("v1": always 1), so   *)
+(* that the same call is well-typed in one environment and ill-typed in    *)
+(* another (q2 / q8).                                                      *)
 (*                                                                         *)
 (* Compile-time validity uses the registry at compile time; function       *)
 (* lookup happens against the registry of the query's own environment at   *)
@@ -36,7 +39,7 @@ vars == <<env, handles, docs, hist>>
 
 FName == <<102>>                                    \* "f"
 RegOfEnv(e) == IF env[e].f = "none" THEN Builtins
-               ELSE Builtins \o <<[name |-> FName, params |-> <<"V">>, ret |-> "L", sem |-> env[e].f]>>
+               ELSE Builtins \o <<[name |-> FName, params |-> <<"V">>, ret |-> (IF env[e].f = "v1" THEN "V" ELSE "L"), sem |-> env[e].f]>>
 One == IntLit(FALSE, <<1>>)
 MinusOne == IntLit(TRUE, <<1>>)
 LoOfEnv(e) == IF e = "e2" THEN MinusOne ELSE IJsonLo
@@ -57,6 +60,10 @@ Observable(e, q, d) == Locs(Find(Parse(QText[q], FALSE).v, DocNow(d), RegOfEnv(e
 \* module-level environment); the prefix is part of the history, so the replay performs it too.
 Prefix(e) == << [op |-> "register", e |-> e, b |-> "ct"], [op |-> "compile", e |-> e, q |-> "q2", resp |-> "ok"],
                 [op |-> "compile", e |-> e, q |-> "q7", resp |-> "ok"] >>
+\* ... and an environment on which the two queries with a '$'-rooted sub-query are compiled (apply / edit / apply of the SAME
+\* handle on the SAME document object is then within the explored depth)
+PrefixB(e) == << [op |-> "find", e |-> e, q |-> "q6", d |-> "d1", resp |-> <<"error">>],
+                 [op |-> "compile", e |-> e, q |-> "q1", resp |-> "ok"], [op |-> "compile", e |-> e, q |-> "q3", resp |-> "ok"] >>
 Init == /\ docs = [d \in DIds |-> "base"]
         /\ \/ /\ env = [e \in Envs |-> [exists |-> e # "e2", f |-> "none"]]
               /\ handles = <<>>
@@ -65,10 +72,14 @@ Init == /\ docs = [d \in DIds |-> "base"]
               /\ env = [e \in Envs |-> [exists |-> e # "e2", f |-> IF e = e0 THEN "ct" ELSE "none"]]
               /\ handles = <<[e |-> e0, q |-> "q2"], [e |-> e0, q |-> "q7"]>>
               /\ hist = Prefix(e0)
+           \/ \E e0 \in {"e1", "mod"} :
+              /\ env = [e \in Envs |-> [exists |-> e # "e2", f |-> "none"]]
+              /\ handles = <<[e |-> e0, q |-> "q1"], [e |-> e0, q |-> "q3"]>>
+              /\ hist = PrefixB(e0)
 
 Log(entry) == hist' = Append(hist, entry)
 \* histories that started from a prefix scenario only exercise what was prepared (apply / find_one / register / edit / newsub)
-Prefixed == Len(hist) >= 3 /\ hist[1].op = "register" /\ hist[2].op = "compile" /\ hist[3].op = "compile"
+Prefixed == Len(hist) >= 3 /\ hist[1].op \in {"register", "find"} /\ hist[2].op = "compile" /\ hist[3].op = "compile"
 
 Compile(e, q) ==
     /\ env[e].exists
@@ -107,7 +118,7 @@ Register(e, b) ==
 
 NewSub ==
     /\ ~env["e2"].exists
-    /\ env' = [env EXCEPT !["e2"] = [exists |-> TRUE, f |-> "cf"]]
+    /\ env' = [env EXCEPT !["e2"] = [exists |-> TRUE, f |-> "v1"]]
     /\ Log([op |-> "newsub"])
     /\ UNCHANGED <<handles, docs>>
 
